@@ -33,11 +33,12 @@ def mc_module():
     for name, m in ENTRY_MAPS.items():
         body = " ELSE ".join('IF a = "%s" THEN %d' % (a, e) for a, e in m.items()) + " ELSE -1"
         defs.append("%s == [a \\in Assets |-> %s]" % (name, body))
+    defs.append('MCOrder == SelectSeq(<< "A", "B", "C" >>, LAMBDA a : a \\in Assets)')
     return "---- MODULE MC_Signals ----\nEXTENDS Signals, TLC\n%s\n====\n" % "\n".join(defs)
 
 
 def cfg(assets, lookbacks, prices, entry, maxticks, check=True):
-    s = "SPECIFICATION Spec\nCONSTANTS\n  Assets = {%s}\n  Lookbacks = {%s}\n  Prices = {%s}\n  EntryAt <- %s\n  MaxTicks = %d\nCHECK_DEADLOCK FALSE\n" % (
+    s = "SPECIFICATION Spec\nCONSTANTS\n  Assets = {%s}\n  Lookbacks = {%s}\n  Prices = {%s}\n  EntryAt <- %s\n  MaxTicks = %d\n  AssetOrder <- MCOrder\n  HashOrder = FALSE\nCHECK_DEADLOCK FALSE\n" % (
         ", ".join('"%s"' % a for a in assets), ", ".join(str(x) for x in lookbacks), ", ".join(str(x) for x in prices), entry, maxticks)
     if check:
         s += "INVARIANT C16_Windows\nINVARIANT C16_Definitions\nINVARIANT C16_Cadence\nPROPERTY C16_Independent\n"
@@ -133,6 +134,77 @@ def replay(states, entry, lookbacks, rng):
     return n, out
 
 
+def _cadence_job(job):
+    c, sd = job
+    import sys
+    from .common import REPO
+    if REPO not in sys.path:
+        sys.path.insert(0, REPO)
+    from . import session_rig as sr
+    from .engine_twin import signals_factory
+    out = sr.run_real(c, random.Random(sd), signals_factory=signals_factory("x", 40), keep_session=True)
+    sess = out.extra.pop("session", None)
+    res = dict(failure=out.failure, windows={})
+    if sess is not None and sess.signals is not None:
+        for name in ("momentum", "sma", "vol"):
+            sig = sess.signals[name]
+            res["windows"][name] = dict(assets=list(sig.assets),
+                                        prices=dict((k, [float(x) for x in v]) for k, v in sig.buffers.prices.items()))
+        res["warmup"] = sess.signals.warmup
+    return res
+
+
+def session_cadence(rep, w, rng, n, sd):
+    """C16 inside a backtest: every signal receives exactly one observation per asset per business day - that
+    day's close - and an asset entering a dynamic universe later starts empty.  The Session model says which
+    closes each asset must have been fed (MC_Session prints them); the real session's signal buffers (lookback
+    longer than the run, so nothing has been dropped) must hold exactly those."""
+    import multiprocessing
+    from . import engine_session as es
+    from . import session_rig as sr
+    cfgs = [sr.gen_config(rng, alpha_kinds=("single", "single", "fixed"), allow_fail=False) for _ in range(n)]
+    try:
+        exps = es.tlc_outcomes(w, cfgs, rep, "MC_Session(cadence)")
+    except tlc.TLCError as e:
+        rep.machinery.append(str(e)[-1500:])
+        return 0, 0
+    with multiprocessing.Pool(16) as pool:
+        outs = pool.map(_cadence_job, [(c, sd * 17 + i) for i, c in enumerate(cfgs)], chunksize=2)
+    nobs = 0
+    caps = {"momentum": 41, "sma": 2, "vol": 42}
+    for c, exp, got in zip(cfgs, exps, outs):
+        feeds = exp[8]
+        nclose = len([1 for t, _q in (max(feeds, key=len) if feeds else [])])
+        for n_, a in enumerate(sr.ASSETS, 1):
+            stream = [float("nan") if q == 0 else q / 1000.0 for _t, q in feeds[n_ - 1]]
+            nobs += len(stream)
+            for name, cap in caps.items():
+                wdw = got["windows"].get(name)
+                if wdw is None:
+                    continue
+                key = "EQ:%s_%d" % (a, cap)
+                have = wdw["prices"].get(key, [])
+                want = stream[-cap:] if stream else []
+                if not _same_floats(have, want):
+                    when = "late-entrant" if c["entry"].get(a, -1) > c["start"] else "member-from-start"
+                    rep.violation("signals|session-cadence|" + when,
+                                  "after the backtest the %s window of %s (cap %d) holds %s, but the closes it must have been fed are %s; "
+                                  "configuration %s" % (name, a, cap, have, want, es._brief(c)), dict(config=c, asset=a, signal=name))
+                    break
+    return len(cfgs), nobs
+
+
+def _same_floats(a, b):
+    if len(a) != len(b):
+        return False
+    for x, y in zip(a, b):
+        if x != x and y != y:
+            continue
+        if x != y:
+            return False
+    return True
+
+
 def run(prop, replay_file=None):
     rep = Report(prop)
     t, sd = tier(), seed()
@@ -190,6 +262,11 @@ def run(prop, replay_file=None):
                     rep.sample(dict(entry_ticks=emap, supplied_streams=dict((a, list(v)) for a, v in streams.items()),
                                     final_signals=states[-1]["sig"]))
             shutil.rmtree(simdir, ignore_errors=True)
+        # in-backtest cadence: real sessions with real signal objects, against the Session model
+        nsess, nobs = session_cadence(rep, w, rng, 60 if t == "quick" else 800, sd)
+        nup += nobs
+        nbeh += nsess
+        rep.cov["sessions_with_signals"] = nsess
         rep.cov["evaluations"] = nup
         rep.cov["traces_validated_against_impl"] = nbeh
         rep.cov["distinct_nontrivial"] = len(distinct)
